@@ -16,6 +16,7 @@ PROP = "C15"
 LEVEL = "exploration"
 SHARDS = {"quick": 8, "thorough": 16}
 TIMEOUT = {"quick": 900, "thorough": 7200}
+THOROUGH_MULT = 2   # thorough budgets below are multiplied by this (sized for roughly five minutes on 16 cores)
 REQUIRED = {"no_secret_leaf": 60, "public_unchanged": 60, "cli_paranoia": 12, "channels": 100}
 ANCHORS = ["__main__:paranoia_mode", "paper_wallet:PaperWallet.generate"]
 RULE = ("wallets from all constructors x both networks x accounts/intervals as C06; passphrases empty or >= 12 chars with a "
